@@ -163,6 +163,8 @@ struct Hist {
     bed: TestBed,
     same_host: bool,
     next_run: usize,
+    /// every CA manifest is issued with a nextUpdate that has already passed (all runs accept stale objects)
+    stale_mode: bool,
     /// counter for the TA's manifest number
     step: u64,
     /// (p, v) -> ee_not_after_secs (offset from factory.now) of short lived versions built so far
@@ -208,6 +210,9 @@ fn world_for(h: &mut Hist, w: &Value, n: u64, factory: &Factory) -> World {
         ca.mft_validity = (-12, 24);
         ca.mft_serial = 100 + v;
         ca.crl = (-12, 24);
+        if h.stale_mode {
+            ca.mft.next_update_secs = chrono::Utc::now().timestamp() - fnow - 2;
+        }
         if is_in(&w["short"], p, v) {
             let dead = is_in(&w["dead"], p, v);
             let secs = *h.short_abs.entry((p, v)).or_insert_with(|| {
@@ -341,7 +346,7 @@ fn advance(rep: &mut Report, h: &mut Hist, b: &Value, factory: &Factory) -> Prog
         let post = observe(&h.bed.cache);
         let ok = matches!(outcome, Outcome::Ok);
 
-        let ctx = json!({"history": h.idx, "n": n, "same_host": h.same_host, "runs": runs[..=ri], "run_index": ri});
+        let ctx = json!({"history": h.idx, "n": n, "same_host": h.same_host, "manifests_past_next_update": h.stale_mode, "runs": runs[..=ri], "run_index": ri});
         let observed = json!({"outcome": format!("{outcome:?}"), "before": before.to_json(), "pre_cleanup_twin": pre.to_json(),
                               "after": post.to_json(), "fetched": fetched});
         if matches!(outcome, Outcome::Init) {
@@ -551,7 +556,7 @@ pub fn main(args: &Args) -> i32 {
                 loop {
                     let ids = match work.lock().unwrap().next() { Some(b) => b, None => break };
                     let mut hs: Vec<Hist> = ids.iter().map(|&idx| Hist {
-                        idx, bed: TestBed::new(), same_host: (idx as u64 + args.seed) % 2 == 0, next_run: 0, step: 0,
+                        idx, bed: TestBed::new(), same_host: (idx as u64 + args.seed) % 2 == 0, next_run: 0, step: 0, stale_mode: idx % 3 == 1,
                         short_abs: BTreeMap::new(), ta_view: BTreeMap::new(), clock_drift: false, abandoned: false,
                     }).collect();
                     let mut done = vec![false; hs.len()];
